@@ -20,8 +20,9 @@ def gen_scenario(rng, i, with_boom=None):
     if rng.random() < 0.15 and not with_boom:
         nodes, esn_models, din = scengen.gen_esn(rng)
         edges, entries = [[0, 1]], [0]
-    elif rng.random() < 0.35 and not with_boom:
-        kind = rng.choice(["fun", "acc", "res", "resext", "delay", "nvar", "lin"])
+    elif rng.random() < 0.35:
+        # a stand-alone node (Node.call / Node.run themselves); with_boom: its forward function raises at its k-th call
+        kind = "boom" if with_boom else rng.choice(["fun", "acc", "res", "resext", "delay", "nvar", "lin"])
         din = rng.randint(1, 2)
         nodes = [scengen.make_node(rng, 0, kind, din)]
         edges, entries = [], [0]
@@ -137,9 +138,10 @@ def _judge(sc):
         return ({b.nodes[j].name: v for j, v in vals.items()} if is_model else list(vals.values())[0]), vals
 
     # (a)+(b) stateless operations: state untouched (also on failure), and repeatable
-    for trial in range(3):
-        X = scen.fl(scengen.rows(rng, rng.randint(1, 4), din))
-        o = {"stateful": False, "reset": rng.random() < 0.3, "as_run": True}
+    for trial in range(4):
+        as_run = rng.random() < 0.55               # Node.run / Model.run, or the single-step call path (Node.call / Model.call)
+        X = scen.fl(scengen.rows(rng, rng.randint(1, 4) if as_run else 1, din))
+        o = {"stateful": False, "reset": rng.random() < 0.3, "as_run": as_run}
         if rng.random() < 0.4:
             o["from_state"], _ = fs([0] if not is_model else rng.sample(sorted(odim), 1))
         before = _states(b)
@@ -266,9 +268,51 @@ def _judge_esn(rng, tag):
     return None
 
 
+def _judge_saved_state(sc):
+    """The state a user SAVES (the array state() hands out, kept as it is) and gives back later through from_state, and the
+    states a temporary context (with_state) is supposed to restore, must not be altered by what happens in between (reset, runs)."""
+    if any(k in HIDDEN or k == "boom" for k in sc["kinds"]):
+        return None
+    base = dict(sc, ops=[])
+    rng = core.random.Random("sv" + str(sc["tag"]))
+    din = sc["din"]
+    A, B = scen.Built(base), scen.Built(base)
+    mA, mB = A.models[0], B.models[0]
+    is_model = hasattr(mA, "nodes")
+    warm = scen.fl(scengen.rows(rng, 3, din))
+    _do(mA, {"as_run": True}, warm); _do(mB, {"as_run": True}, warm)
+    ids = sorted(nd["id"] for nd in sc["nodes"])
+    saved = {j: A.nodes[j].state() for j in ids if A.nodes[j].is_initialized}          # what the user keeps: no copy
+    expect = {j: np.array(B.nodes[j].state(), dtype=float).copy() for j in saved}
+    X = scen.fl(scengen.rows(rng, 3, din))
+    mA.reset()
+    _do(mA, {"as_run": True}, scen.fl(scengen.rows(rng, 2, din)))
+    argA = {A.nodes[j].name: v for j, v in saved.items()} if is_model else saved[ids[0]]
+    okA, rA = _do(mA, {"from_state": argA, "as_run": True}, X)
+    for j, v in expect.items():
+        B.nodes[j].reset(to_state=v)
+    okB, rB = _do(mB, {"as_run": True}, X)
+    if okA != okB or (okA and not np.allclose(rA, rB, rtol=1e-12, atol=1e-12)):
+        return _viol("from_state:saved-state-altered", "s = state(); reset(); run; run(from_state=s) differs from the run resumed from the saved values "
+                     "(the saved array was modified behind the user's back)", sc, rB.tolist() if okB else rB, rA.tolist() if okA else rA)
+    # temporary context: whatever happens inside (reset, runs), the states found at entry are back at exit
+    before = _states(A)
+    try:
+        with mA.with_state():
+            mA.reset()
+            _do(mA, {"as_run": True}, scen.fl(scengen.rows(rng, 2, din)))
+    except Exception as e:  # noqa: BLE001
+        return _viol("context:exception", "reset + run inside `with with_state():` raises %r" % (e,), sc)
+    after = _states(A)
+    if not all((before[i] is None and after[i] is None) or (before[i] is not None and after[i] is not None and np.array_equal(before[i], after[i])) for i in before):
+        return _viol("context:state-not-restored", "the states found at the entry of `with with_state():` are not back at its exit (reset + run inside)", sc,
+                     {i: None if v is None else v.tolist() for i, v in before.items()}, {i: None if v is None else v.tolist() for i, v in after.items()})
+    return None
+
+
 def judge(case):
     sc = case["scenario"]
-    return _judge(sc) or _judge_from_state(sc)
+    return _judge(sc) or _judge_from_state(sc) or _judge_saved_state(sc)
 
 
 def oracle(ctx, scale=1):
@@ -277,7 +321,7 @@ def oracle(ctx, scale=1):
     out = []
     for i in range(n):
         sc = gen_scenario(rng, "o%d" % i, with_boom=(i % 3 == 0))
-        v = _judge(sc) or _judge_from_state(sc)
+        v = _judge(sc) or _judge_from_state(sc) or _judge_saved_state(sc)
         if v:
             out.append(v)
     for i in range(ctx.n(3, 20)):
@@ -294,5 +338,5 @@ def replay(payload):
     if sc.get("kind") == "esn":
         vs = [v for v in (_judge_esn(core.random.Random(i), "rp%d" % i) for i in range(4)) if v]
         return {"violates": bool(vs), "detail": vs[:1]}
-    v = _judge(sc) or _judge_from_state(sc)
+    v = _judge(sc) or _judge_from_state(sc) or _judge_saved_state(sc)
     return {"violates": bool(v), "detail": v}
